@@ -118,6 +118,151 @@ pub fn run_case(w0: u32, w1: u32, k: usize, pipelined: bool) -> String {
     })
 }
 
+/// `lwin ord w=<n> first=<n> then=<n>`: order of the transfers of ONE link when the window closes and re-opens through a flow
+/// that names a link the application has not accepted yet.  The peer opens with incoming-window `w`; the application
+/// (sender on the listener's side) sends `first` pre-settled messages of lengths 1, 2, ..: `w` go out, the rest is held
+/// back by the session.  The peer then pipelines the attach of a second link and a flow for THAT link which also carries a
+/// wide session window, the application sends `then` more messages on the first link, and a last flow for the first link
+/// follows.  Oracle: the payloads arrive in the order they were sent (class c01-listener-overtake), all of them
+/// (c01-listener-lost).
+pub fn run_ord(w: u32, first_n: usize, then_n: usize) -> String {
+    paused_rt().block_on(async move {
+        let (a, b) = tokio::io::duplex(1 << 20);
+        let mut peer = Peer::new(b);
+        let begin = Performative::Begin(Begin {
+            remote_channel: None,
+            next_outgoing_id: 0,
+            incoming_window: w,
+            outgoing_window: 100,
+            handle_max: Default::default(),
+            offered_capabilities: None,
+            desired_capabilities: None,
+            properties: None,
+        });
+        let flow_of = |handle: u32, next_in: u32, window: u32| {
+            Performative::Flow(Flow {
+                next_incoming_id: Some(next_in),
+                incoming_window: window,
+                next_outgoing_id: 0,
+                outgoing_window: 100,
+                handle: Some(handle.into()),
+                delivery_count: Some(0),
+                link_credit: Some(100),
+                available: None,
+                drain: false,
+                echo: false,
+                properties: None,
+            })
+        };
+        let mut bytes = AMQP_HEADER.to_vec();
+        bytes.extend(frame_bytes(0, &peer_open(None, 100, 65536), &[]));
+        bytes.extend(frame_bytes(0, &begin, &[]));
+        bytes.extend(frame_bytes(0, &peer_attach(), &[]));
+        bytes.extend(frame_bytes(0, &flow_of(0, 0, w), &[]));
+        peer.write(&bytes).await;
+        let (stage_tx, mut stage_rx) = tokio::sync::mpsc::unbounded_channel::<u8>();
+        let (go_tx, go_rx) = tokio::sync::oneshot::channel::<()>();
+        let app = tokio::spawn(async move {
+            let mut conn = ConnectionAcceptor::builder().container_id("l").build().accept(a).await.map_err(|e| format!("conn:{:?}", e))?;
+            let mut sess = SessionAcceptor::builder().build().accept(&mut conn).await.map_err(|e| format!("sess:{:?}", e))?;
+            let link = LinkAcceptor::builder().build().accept(&mut sess).await.map_err(|e| format!("link:{:?}", e))?;
+            let mut sender = match link {
+                LinkEndpoint::Sender(s) => s,
+                _ => return Err("wrong role".to_string()),
+            };
+            let mut len = 0usize;
+            for _ in 0..first_n {
+                len += 1;
+                if !matches!(tokio::time::timeout(Duration::from_secs(5), sender.send("x".repeat(len))).await, Ok(Ok(_))) {
+                    return Err(format!("send {} did not return", len));
+                }
+            }
+            let _ = stage_tx.send(1);
+            let _ = go_rx.await;
+            for _ in 0..then_n {
+                len += 1;
+                if !matches!(tokio::time::timeout(Duration::from_secs(5), sender.send("x".repeat(len))).await, Ok(Ok(_))) {
+                    return Err(format!("send {} did not return", len));
+                }
+            }
+            let _ = stage_tx.send(2);
+            tokio::time::sleep(Duration::from_secs(30)).await;
+            drop(sender);
+            drop(sess);
+            drop(conn);
+            Ok::<(), String>(())
+        });
+        let mut ws: Vec<Wire> = Vec::new();
+        let mut go = Some(go_tx);
+        let mut stage = 0u8;
+        let mut idle = 0;
+        for _ in 0..400 {
+            barrier().await;
+            let got = peer.drain().await;
+            idle = if got.is_empty() { idle + 1 } else { 0 };
+            ws.extend(got);
+            if let Ok(x) = stage_rx.try_recv() {
+                stage = x;
+                idle = 0;
+            }
+            if stage == 1 && idle >= 2 {
+                if let Some(tx) = go.take() {
+                    // a second link, pipelined with a flow for it; the flow also says that the peer has taken what was sent
+                    // so far and opens the session window wide
+                    let seen = ws.iter().filter(|x| matches!(x, Wire::Frame { perf: Performative::Transfer(_), .. })).count() as u32;
+                    let mut second = match peer_attach() {
+                        Performative::Attach(a) => a,
+                        _ => unreachable!(),
+                    };
+                    second.name = "lk2".into();
+                    second.handle = 1.into();
+                    let mut b2 = frame_bytes(0, &Performative::Attach(second), &[]);
+                    b2.extend(frame_bytes(0, &flow_of(1, seen, 50), &[]));
+                    peer.write(&b2).await;
+                    for _ in 0..3 {
+                        barrier().await;
+                        ws.extend(peer.drain().await);
+                    }
+                    let _ = tx.send(());
+                }
+            }
+            if stage == 2 && idle >= 2 {
+                let seen = ws.iter().filter(|x| matches!(x, Wire::Frame { perf: Performative::Transfer(_), .. })).count() as u32;
+                peer.write(&frame_bytes(0, &flow_of(0, seen, 50), &[])).await;
+                stage = 3;
+                idle = 0;
+            }
+            if stage == 3 && idle >= 3 {
+                break;
+            }
+        }
+        let res = if app.is_finished() { format!("{:?}", app.await.ok()) } else { app.abort(); "running".to_string() };
+        let lens: Vec<String> = ws
+            .iter()
+            .filter_map(|x| match x {
+                Wire::Frame { perf: Performative::Transfer(_), payload, .. } => Some(payload.len().to_string()),
+                _ => None,
+            })
+            .collect();
+        format!("lens={} app={}", lens.join("+"), res.replace(' ', ""))
+    })
+}
+
+pub fn oracle_ord(first_n: usize, then_n: usize, trace: &str) -> Vec<(String, String)> {
+    let mut v = Vec::new();
+    let lens: Vec<usize> = trace.split_whitespace().find_map(|t| t.strip_prefix("lens=")).unwrap_or("").split('+').filter_map(|x| x.parse().ok()).collect();
+    if lens.windows(2).any(|p| p[0] >= p[1]) {
+        v.push((
+            "c01-listener-overtake".to_string(),
+            format!("the messages of one link were sent with growing payloads; on the wire their payload lengths are {:?}: a later message overtook transfers the session was still holding back", lens),
+        ));
+    }
+    if trace.contains("app=running") && lens.len() < first_n + then_n {
+        v.push(("c01-listener-lost".to_string(), format!("{} messages were sent, {} transfers were written although the peer's last flow leaves room for all: {}", first_n + then_n, lens.len(), trace)));
+    }
+    v
+}
+
 pub fn oracle(w1: u32, k: usize, trace: &str) -> Vec<(String, String)> {
     let mut v = Vec::new();
     // transfer tokens are `T<ch>h<handle>d<id>p<len>` (first frames carry the delivery-id = transfer-id for single-frame messages)
@@ -146,6 +291,20 @@ pub fn run(seed: u64, n: u64, _thorough: bool, _corpus: &[String], dir: &str) {
     }
     for _ in 0..n {
         cases.push((r.below(8) as u32, r.below(8) as u32, 1 + r.below(9) as usize, r.chance(2, 3)));
+    }
+    if n > 0 {
+        for (w, first_n, then_n) in [(1u32, 3usize, 1usize), (1, 4, 2), (2, 4, 1), (2, 3, 3), (3, 5, 2), (1, 2, 1)] {
+            let line = format!("lwin ord w={} first={} then={}", w, first_n, then_n);
+            let t = run_ord(w, first_n, then_n);
+            out.count("ord");
+            if t.contains('+') {
+                out.nontrivial(&line);
+            }
+            for (c, wh) in oracle_ord(first_n, then_n, &t) {
+                out.violation(&c, &wh, &line);
+            }
+            out.case(&line, &t);
+        }
     }
     for (w0, w1, k, pipelined) in cases {
         let line = format!("lwin w0={} w1={} k={} when={}", w0, w1, k, if pipelined { "pipelined" } else { "late" });
